@@ -262,7 +262,8 @@ C02_Vv(pre, ev, post, vvh) ==
         ELSE IF ev.act = "Rename" /\ ev.status = "OK" /\ m # "inbox"
                 /\ \E r \in SeqToSet(ev.renames) : r[2] = m /\ Has(pre, r[1])
                       /\ pre.mb[r[1]].active /\ pre.mb[r[1]].vv = b.vv
-             THEN (IF <<m, b.vv>> \in vvh THEN {"C02.VvPairReused"} ELSE {})
+             THEN {}     \* the renamed mailbox is the same incarnation under another name - also when it
+                         \* comes back to a name it had before (a/b -> c -> a/b keeps its UIDVALIDITY)
         ELSE   (IF <<m, b.vv>> \in vvh THEN {"C02.VvPairReused"} ELSE {})
           \cup (IF \E p \in vvh : p[1] = m /\ p[2] >= b.vv THEN {"C02.VvFresh"} ELSE {})
           \cup (IF Has(pre, m) /\ pre.mb[m].active /\ ev.act \notin NsActs
